@@ -246,6 +246,11 @@ func checkC03(w *World, tier string) *Report {
 	addCodeIdentityRule(w, r, "R3.6")
 	addNoUnsafeRule(w, r, "R3.7")
 	r.Assumptions = append(r.Assumptions, "initialised host: BlockContext.BlockNumber non-nil, Aspect provider and context callbacks set (stated in the property)", "values handed to EVM.Call/Create by the host fit 256 bits (uint256.MustFromBig)", assumedPre["(*P0.Memory).Copy"].why)
+	// the interpreter loop keeps the call depth and the read-only flag balanced on every exit (its deferred clean-ups are
+	// the reference's): a depth that leaks makes later frames fail or be announced at the wrong level
+	w.e1().cloneRule(r, "R3.8", pkVM, func(name string, pr *PairResult) bool { return name == "(*EVMInterpreter).Run" })
+	r.need("R3.8", 1)
+	r.Explanation += " R3.8 (*EVMInterpreter).Run is an SSA clone of the reference (depth and read-only bookkeeping restored on every exit)."
 	return r
 }
 
@@ -626,6 +631,14 @@ func checkC09(w *World, tier string) *Report {
 	r.need("R9.5", 3)
 	r.need("R9.6", 1)
 	r.need("R9.7", 2)
+	// shared rules (fourth batch of seeded changes): a value is recorded on every successful path and is not a view of
+	// interpreter scratch state; the per-call list drops a value only as an immediate repeat; the 256-bit constants
+	// the decoders compute with are never written
+	addMustRecordRule(w, r, "R10.9")
+	addRecordedValueFreshRule(w, r, "R10.10")
+	addR105(w, r, "R10.5")
+	addSharedConstRule(w, r, "R16.2")
+	r.Explanation += " R10.9 (shared with C10) every return with a nil error of the eight journal instructions is preceded on every path by the recorder call; R10.10 the value handed to the recorder has no field or captured variable among its may-alias roots (no scratch buffer that a later instruction rewrites); R10.5 (shared) a value is dropped from the per-call list only as an immediate repeat; R16.2 (shared with C16) the package-level 256-bit constants the decoders compute with are never written."
 	return r
 }
 
@@ -1145,7 +1158,7 @@ var extraRangeTargets = map[string]string{
 func checkC19(w *World, tier string) *Report {
 	r := newReport("C19")
 	r.Explanation = "Structural necessary condition 'finish without panic' only: R19.1 (E3) every index/slice obligation in the fork-only functions of tracers/native and in the fork insertions of its modified functions (CaptureAspectEnter/Exit, CaptureExit, clearFailedLogs, flatFromNested, flatAspectNested, newFlatJoinPoint …) is entailed by the dominating guards, given the reviewed field invariant len(callTracer.callstack) >= 1 (R19.0, checked inductively: the constructor makes one frame and the only shrinking store keeps size-1 >= 1 elements); plus the inherited flatCallTracer.CaptureExit, whose safety rested on a callee postcondition the fork changed. Inherited tracer code that is a clone of the reference is the reference's (C18) and is not re-analysed. " +
-		"R19.2 (resolved AST of the flattening functions) the collections summed into a frame's Subtraces are exactly the collections whose elements are emitted recursively, a collection ranged over once is emitted unconditionally and one ranged over twice is split by complementary skip conditions — so the declared sub-trace count equals the number of children emitted by that step and no child is emitted twice or dropped; R19.3 nil-field must-analysis (as C03 R3.5) on the same functions; R19.4 (may-alias roots through result summaries) the trace address handed to every recursive emission in the flattening functions is a fresh slice — it shares storage neither with the parent's address nor with a sibling's, so addresses stored in emitted frames cannot be overwritten by later appends; R19.5 state that is set when an Aspect execution is entered and reset when it is left (the 'an Aspect is running' marker consulted by CaptureExit) is stored in the frame record (an element of the call stack), never in the tracer itself: Aspect executions of different open frames interleave, so a tracer-wide marker is cleared by an inner Aspect's exit while the outer one still runs. " +
+		"R19.2 (SSA of the flattening functions and the fork helpers they emit through: natural loops, dominance, element-of-collection tracing) the collections summed into a frame's Subtraces are exactly the collections whose elements are emitted recursively, a collection ranged over once is emitted unconditionally and one ranged over twice is split by complementary skip conditions — so the declared sub-trace count equals the number of children emitted by that step and no child is emitted twice or dropped; R19.3 nil-field must-analysis (as C03 R3.5) on the same functions; R19.4 (may-alias roots through result summaries) the trace address handed to every recursive emission in the flattening functions is a fresh slice — it shares storage neither with the parent's address nor with a sibling's, so addresses stored in emitted frames cannot be overwritten by later appends; R19.5 state that is set when an Aspect execution is entered and reset when it is left (the 'an Aspect is running' marker consulted by CaptureExit) is stored in the frame record (an element of the call stack), never in the tracer itself: Aspect executions of different open frames interleave, so a tracer-wide marker is cleared by an inner Aspect's exit while the outer one still runs. " +
 		"R19.10 in callTracer.CaptureExit (or the helper it uses) exactly one of the two appends of a finished call executes, the one under the Aspect execution only while the frame's marker is set and the one to the parent frame whenever it is not (guards compared as truth tables over their atomic tests); R19.6 in the flattening functions the address operator is never applied to a range variable (one variable per loop under the module's language version: frames built from it would all point at the last element); R19.7 the sibling flattening functions discard a frame's Result under the same guard, a condition over the input record only. " +
 		"R19.8 (E3 entailment) every write CaptureAspectExit makes into an element of a frame's JoinPoints addresses the element opened last (index len-1) — Aspect executions of one call frame do not nest, so that is the execution the exit event completes. " +
 		"R19.9 a call frame on the tracer's stack is never overwritten wholesale and its JoinPoints list is only appended to by CaptureAspectEnter: Aspect executions recorded before CaptureStart (pre-transaction join points) or before a later event survive. " +
@@ -1179,8 +1192,13 @@ func checkC19(w *World, tier string) *Report {
 func addTraceAddressRule(w *World, r *Report, rule string) {
 	eng := w.aliasEngine()
 	n := 0
+	isFlat := map[*ssa.Function]bool{}
+	ffs, _ := flattenFuncs(w)
+	for _, f := range ffs {
+		isFlat[f] = true
+	}
 	for _, fn := range w.Funcs(forkPath(pkNative)) {
-		// flattening functions: take a []int and return ([]flatCallFrame, error)
+		// flattening functions and their helpers: take a []int and return (…, error)
 		var addrParam *ssa.Parameter
 		for _, p := range fn.Params {
 			if sl, ok := p.Type().Underlying().(*types.Slice); ok {
@@ -1189,7 +1207,7 @@ func addTraceAddressRule(w *World, r *Report, rule string) {
 				}
 			}
 		}
-		if addrParam == nil || fn.Signature.Results().Len() != 2 {
+		if addrParam == nil || fn.Signature.Results().Len() < 2 {
 			continue
 		}
 		ord := 0
@@ -1200,7 +1218,9 @@ func addTraceAddressRule(w *World, r *Report, rule string) {
 					continue
 				}
 				cal := c.Call.StaticCallee()
-				if cal == nil || !isForkPkg(cal.Pkg) || cal.Signature.Results().Len() != 2 {
+				// the callees that keep the address they are given: the flattening functions (they store it into the
+				// frame they emit); a helper that only derives child addresses from it is analysed as a function of its own
+				if cal == nil || !isForkPkg(cal.Pkg) || !isFlat[cal] {
 					continue
 				}
 				for i, arg := range c.Call.Args {
@@ -1237,7 +1257,7 @@ func addTraceAddressRule(w *World, r *Report, rule string) {
 			}
 		}
 	}
-	r.need(rule, 4)
+	r.need(rule, 3) // pre-call, sub-call and post-call emission of a call frame (the two join-point passes may share one helper) and the sub-call emission of an Aspect frame
 	_ = n
 }
 
@@ -1592,8 +1612,14 @@ func checkC20(w *World, tier string) *Report {
 		if meterFiles[f[strings.LastIndex(f, "/")+1:]] {
 			return true
 		}
+		// ... and the work a precompile does for the price RequiredGas asks: the Run methods of the inherited precompiles
+		if strings.HasSuffix(name, ".Run") && name != "(*EVMInterpreter).Run" && !strings.HasPrefix(name, "(*aspcontext)") && !strings.HasPrefix(name, "(*userOpSender)") && !strings.HasPrefix(name, "(*contextWriter)") {
+			return true
+		}
 		return strings.HasSuffix(name, ".RequiredGas") || name == "(*EVMInterpreter).Run" || name == "RunPrecompiledContract" || name == "(*Contract).UseGas" || name == "(*Memory).Resize"
 	})
 	r.need("R20.3", 50)
+	addGasMcopyRule(w, r, "R15.2")
+	r.Explanation += " R20.3 also covers the Run methods of the inherited precompiles (the work done for the price RequiredGas asks); R15.2 (shared with C15) the gas function of MCOPY is memoryCopierGas(2): per-word copy gas on the length operand."
 	return r
 }
